@@ -23,11 +23,11 @@ def run(res, pool, tier, seed):
                      cfg_extra=["VIEW View"], timeout=1500),
                 dict(module="MC_Move.tla", tag="gen", invariants=["Emit"], constants=consts(seed, 3, 3), timeout=1500, batch=25)]
     else:
-        jobs = [dict(module="MC_Move.tla", tag="mc", invariants=MC_INVS, properties=["QueryPure"], constants=consts(seed, 6, 1),
+        jobs = [dict(module="MC_Move.tla", tag="mc", invariants=MC_INVS, properties=["QueryPure"], constants=consts(seed, 4, 1),
                      cfg_extra=["VIEW View"], timeout=7200),
-                dict(module="MC_Move.tla", tag="gen", invariants=["Emit"], constants=consts(seed, 4, 40), timeout=7200, batch=25),
+                dict(module="MC_Move.tla", tag="gen", invariants=["Emit"], constants=consts(seed, 4, 120), timeout=7200, batch=25),
                 dict(module="MC_Move.tla", tag="gen-sim", invariants=["Emit"], constants=consts(seed, 6, 1), timeout=3600, batch=25,
-                     simulate="num=500", depth=7, tlc_seed=seed + 11, workers=8, spec="SpecSim")]
+                     simulate="num=300", depth=7, tlc_seed=seed + 11, workers=8, spec="SpecSim")]
     engine.run_jobs(res, jobs, pool)
     import traces
     traces.run_for(res, ["unit_tests", "driver", "sessions"], {"C07"}, seed=seed + 4, nsessions=300 if tier == "quick" else 3000)
